@@ -15,10 +15,12 @@ MANIFEST = dict(
     category="proof",
     technique="Lean 4 theorems over BitVec 64 about bounds predicates regenerated from the C text (translator T5) + function-level correspondence "
               "(compiled macro vs generated predicate) + structure-aware fuzzing of every module under ASan/UBSan/LSan with per-case fork and timeout",
-    text="partial: PROVED for all 64-bit values — fits_in_pe/struct_fits_in_pe, fits_in_dex, exec.c function_read range test, Mach-O fat/command tests, "
-         "ELF table tests, .NET string start test imply an in-range access under allocation validity only; pe_rva_to_offset result < data_size; capped loops run "
-         "<= cap times; is_valid_ptr (elf.c) and the arena relocation test are proved only with an extra no-wrap hypothesis and Lean gives the counter-example "
-         "(F10 reproduced on the real code). SAMPLED ONLY: that every dereference in the parsers is guarded, absence of leaks/uninitialised reads, termination "
+    text="partial: PROVED for all 64-bit values about the definitions GENERATED from the current C text — is_valid_ptr, fits_in_pe/struct_fits_in_pe, fits_in_dex, "
+         "exec.c function_read range test, arena relocation test, Mach-O fat/command tests, ELF table and string-table tests, pe.c available_space and export-table "
+         "tests, .NET string start and blob index tests imply an in-range access under allocation validity only; .NET blob length tests under 'buffer not within 4 GiB "
+         "of the top of the address space'; pe_rva_to_offset result < data_size; capped loops run <= cap times. Two pe.c tests are sound only with a "
+         "caller-established hypothesis and Lean gives the counter-example otherwise (F60 Rich-header offset, F61 32-bit sum in the security directory; neither is "
+         "reachable as a memory error today). SAMPLED ONLY: that every dereference in the parsers is guarded, absence of leaks/uninitialised reads, termination "
          "of whole scans — exhibited by sanitizer runs on seeded structure-aware mutations of the sample files.",
     design_ref="DESIGN.md §1.3, §4 D12, §5 C06",
     note=core.TB + "Predicates are tied to the code twice (regenerated from text on every run; compiled code compared on tuples, strictly only where the C "
@@ -29,7 +31,30 @@ BOUNDS_PREDS = {  # name -> arity; the ones with a compiled twin in h_bounds.c
     "fits_in_pe": 4, "struct_fits_in_pe": 3, "fits_in_dex": 4, "struct_fits_in_dex": 3, "is_valid_ptr": 4,
     "function_read_in_range": 4, "arena_reloc_reject": 5, "dotnet_string_start_ok": 5}
 MODEL_ONLY = {"macho_cmd_hdr_outside": 3, "macho_cmd_too_big": 3, "macho_cmd_too_small": 1, "macho_fat_wraps": 2, "macho_fat_outside": 3,
-              "macho_fat_table_outside": 3, "elf_table_wraps": 2, "elf_table_outside": 4}
+              "macho_fat_table_outside": 3, "elf_table_wraps": 2, "elf_table_outside": 4,
+              "pe_available_before": 3, "pe_available_after": 3, "pe_rich_nthdr_reject": 2, "pe_exports_table_outside": 3, "pe_export_names_outside": 3,
+              "pe_security_dir_reject": 3, "dotnet_blob4_ok": 3, "dotnet_blob_entry_outside": 4, "dotnet_blob_index_reject": 4,
+              "dotnet_attr_blob_reject": 4, "dotnet_attr_str_outside": 4, "elf_str_entry_outside": 2}
+U32_ARGS = {"pe_rich_nthdr_reject": [1], "pe_exports_table_outside": [2], "pe_export_names_outside": [2], "pe_security_dir_reject": [1, 2],
+            "dotnet_blob_entry_outside": [3], "dotnet_blob_index_reject": [3], "dotnet_attr_blob_reject": [3]}
+U8_ARGS = {"dotnet_attr_str_outside": [3]}
+TOP = 1 << 64
+# natural-number meaning of the predicates: name -> (value that means "access allowed", hypotheses on the tuple, in-range test)
+MEANING = {
+    "pe_rich_nthdr_reject": ("0", lambda a: a[0] + 4 < TOP, lambda a: a[1] >= 4 and a[1] <= a[0]),
+    "pe_security_dir_reject": ("0", lambda a: True, lambda a: a[1] > 0 and a[1] + a[2] <= a[0]),
+    "pe_exports_table_outside": ("0", lambda a: a[1] <= a[0], lambda a: a[1] + 4 * a[2] <= a[0]),
+    "pe_export_names_outside": ("0", lambda a: a[1] <= a[0], lambda a: a[1] + 4 * a[2] <= a[0]),
+    "dotnet_blob4_ok": ("1", lambda a: a[0] + a[1] + (1 << 32) <= TOP and a[2] <= a[0] + a[1], lambda a: a[2] + 4 <= a[0] + a[1]),
+    "dotnet_blob_entry_outside": ("0", lambda a: a[0] + a[1] + (1 << 32) <= TOP and a[2] <= a[0] + a[1], lambda a: a[2] + a[3] <= a[0] + a[1]),
+    "dotnet_attr_blob_reject": ("0", lambda a: a[0] + a[1] + (1 << 32) <= TOP and a[2] <= a[0] + a[1], lambda a: a[3] >= 3 and a[2] + a[3] <= a[0] + a[1]),
+    "dotnet_attr_str_outside": ("0", lambda a: a[0] + a[1] + (1 << 32) <= TOP and a[2] <= a[0] + a[1], lambda a: a[2] + a[3] <= a[0] + a[1]),
+    "dotnet_blob_index_reject": ("0", lambda a: a[0] + a[1] < TOP, lambda a: a[3] != 0 and a[2] < a[0] + a[1]),
+    "macho_cmd_too_big": ("0", lambda a: a[1] <= a[0], lambda a: a[1] + a[2] <= a[0]),
+    "macho_fat_table_outside": ("0", lambda a: a[1] < (1 << 32) and a[2] <= 32, lambda a: 8 + a[1] * a[2] <= a[0]),
+}
+# named conditions a listed predicate-level finding may restrict itself to (signature.condition)
+PRED_CONDITIONS = {"nthdr_offset>data_size": lambda a: a[1] > a[0], "data_size>=2^31": lambda a: a[0] >= (1 << 31)}
 M64 = (1 << 64) - 1
 MAPADDR = 0x200000000000
 
@@ -86,8 +111,18 @@ def gen_model_only(r, n):
     names = list(MODEL_ONLY)
     for i in range(n):
         name = names[i % len(names)]
-        size = r.choice([0, 8, 28, 32, 0x1000, 1 << 32, M64])
-        args = [bval(r, [size, 0, (0 - size) & M64]) for _ in range(MODEL_ONLY[name])]
+        size = r.choice([0, 8, 28, 32, 100, 0x1000, 1 << 31, 0xC0000000, 1 << 32, M64])
+        base = r.choice([0, 0x1000, 0x7f0000001000, M64 - 0xfff])
+        args = [bval(r, [size, 0, (0 - size) & M64, base, (base + size) & M64]) for _ in range(MODEL_ONLY[name])]
+        if name.startswith(("dotnet_", "pe_available")):
+            args[0], args[1] = base, size if size < (1 << 40) else 0x1000
+            args[2] = bval(r, [base, (base + args[1]) & M64])
+        elif name.startswith("pe_") and r.random() < 0.8:
+            args[0] = size
+        for k in U32_ARGS.get(name, []):
+            args[k] = bval(r, [size & 0xffffffff, 0, 3, (size - (args[2] if len(args) > 2 else 0)) & 0xffffffff]) & 0xffffffff
+        for k in U8_ARGS.get(name, []):
+            args[k] &= 0xff
         out.append("m%d p %s %s" % (i, name, " ".join("%x" % (a & M64) for a in args)))
     return out
 
@@ -139,6 +174,13 @@ def unsound(name, a):
     if base + size >= (1 << 64):
         return None
     return None if in_range(base, size, p, n) else "accepted [%#x,+%#x) outside [%#x,+%#x)" % (p, n, base, size)
+
+
+def unsound_generic(name, a, val):
+    m = MEANING.get(name)
+    if not m or val != m[0] or not m[1](a):
+        return None
+    return None if m[2](a) else "allowed by %s but outside its natural-number meaning: %s" % (name, " ".join("%#x" % x for x in a))
 
 
 SEED_GLOBS = ["tests/data/*", "tests/oss-fuzz/*_corpus/*"]
@@ -194,6 +236,17 @@ def gen_fuzz_cases(r, tier, sds):
                         cur2 = int.from_bytes(s[1][off2:off2 + w2], "little" if en2 == "<" else "big")
                         ops += ",%s%d:%d:%x" % ("W" if en2 == "<" else "B", off2, w2, M.directed_value(r, lab2, cur2, w2, len(s[1]), s[5]))
                 add(s[0], ops, fmt, "directed:" + kl.split(".")[0].split("/")[-1].split("[")[0][:12])
+    # (b2) every table the parsers walk copied so that it ends exactly at the last byte of the buffer (or sticks out), pointer re-aimed, counts varied
+    for s in sds:
+        if len(s[1]) > (120000 if quick else 3000000):
+            continue
+        for ops, kind in M.reloc_cases(r, s[1], M.reloc_targets(s[1]), 6 if quick else 8):
+            add(s[0], ops, s[2], kind)
+    # (b3) .NET signature blobs of the #Blob heap rewritten with crafted type encodings (array shapes, nesting, generic instantiations, compressed ints)
+    for s in sds:
+        if s[2] == "dotnet":
+            for ops, kind in M.dotnet_blob_cases(r, s[1], 120 if quick else 500):
+                add(s[0], ops, s[2], kind)
     # (c) truncation at every structure boundary of every seed (all deltas for the smallest seed of each format)
     for fmt in fmts:
         small = min(per_fmt[fmt], key=lambda s: len(s[1]))
@@ -202,7 +255,7 @@ def gen_fuzz_cases(r, tier, sds):
                 for dlt in ((-1, 0, 1, 7, 39) if (s is small or not quick) else (r.choice([0, 1, 1, 7, 19, 39]),)):
                     add(s[0], "T%d" % max(0, min(len(s[1]), c + dlt)), fmt, "trunc@boundary")
     # (d) random mix
-    for _ in range(900 if quick else 40000):
+    for _ in range(900 if quick else 20000):
         fmt = r.choice(fmts)
         cand = per_fmt[fmt]
         s = r.choice(sorted(cand, key=lambda s: len(s[1]))[: max(1, (len(cand) + 1) // 2)]) if r.random() < 0.7 else r.choice(cand)
@@ -241,27 +294,10 @@ def signature(line):
     return (kind, fn)
 
 
-FAT_MAGICS = ("cafebabe", "cafebabf", "bebafeca", "bfbafeca")
-
-
-def f52_shape(line):
-    """input shape of finding F52: fat Mach-O magic, nfat_arch >= 2^20 and the arch table does not fit in the file"""
-    m = re.search(r"len=(\d+) hdr=([0-9a-f]+)", line)
-    if not m or len(m.group(2)) < 16 or m.group(2)[:8] not in FAT_MAGICS:
-        return False
-    nfat = int(m.group(2)[8:16], 16)
-    return nfat >= (1 << 20) and 8 + 20 * nfat > int(m.group(1))
-
-
-def runtime_known(krun, kind, fn, line):
+def runtime_known(krun, kind, fn):
+    """a sanitizer report is a listed finding only when its (kind, first libyara function) signature is listed verbatim"""
     for f in krun:
-        sg = f["signature"]
-        if sg.get("kind") == kind and sg.get("function") == fn:
-            if f["id"] == "F52" and not f52_shape(line):
-                continue
-            return f
-        if f["id"] == "F52" and kind.startswith("ubsan:signed_integer_overflow") and f52_shape(line) and \
-                fn in ("file_index_type", "file_index_subtype", "ep_for_arch_type", "ep_for_arch_subtype"):
+        if f["signature"].get("kind") == kind and f["signature"].get("function") == fn:
             return f
     return None
 
@@ -298,7 +334,7 @@ def run(tier, replay=None):
 
     # ---------------------------------------------------------------- 2. function-level correspondence
     npred = 4000 if tier == "quick" else 200000
-    pcases = ["s0 sizes"] + gen_pred_cases(r, npred) + gen_rva_cases(r, 1500 if tier == "quick" else 60000) + gen_model_only(r, 800)
+    pcases = ["s0 sizes"] + gen_pred_cases(r, npred) + gen_rva_cases(r, 1500 if tier == "quick" else 60000) + gen_model_only(r, 3000 if tier == "quick" else 60000)
     if replay and replay.get("engine") == "bounds":
         pcases = [replay["case"]]
     run_pred = not replay or replay.get("engine") == "bounds"
@@ -355,29 +391,28 @@ def run(tier, replay=None):
                                                            "implementation": a[0], "model_spec": val,
                                                            "note": "compiled predicate vs Lean predicate regenerated from the C text (translator or compiler-visible semantics differ)"})
                     found = True
-            if val == "1":
-                why = unsound(name, args)
-                if why:
-                    stats["unsound:" + name] += 1
-                    kf = [f for f in kpred if f["signature"].get("predicate") == name and
-                          (f["signature"].get("condition") != "ptr+ptr_size>=2^64" or args[2] + args[3] >= (1 << 64))]
-                    if kf:
-                        if not any(k[0] is kf[0] for k in chk.known_hit):
-                            chk.known(kf[0], "%s: bounds predicate %s accepts an out-of-range access when ptr+ptr_size wraps (e.g. %s); Lean witness "
-                                             "Thm/C06.is_valid_ptr_v452_unsound_witness" % (kf[0]["id"], name, c.split(" ", 2)[2]))
-                    elif stats["unsound_reported"] < 5:
-                        stats["unsound_reported"] += 1
-                        chk.violation("unsound_%s_%d.json" % (name, stats["unsound_reported"]),
-                                      {"kind": "bounds-predicate-unsound", "engine": "bounds", "harness": "h_bounds", "case": c, "implementation": a[0] if a else None,
-                                       "model_spec": val, "why": why, "note": "predicate (as regenerated from the current C text) accepts an access outside the buffer"})
-                        found = True
+            why = (unsound(name, args) if val == "1" else None) or unsound_generic(name, args, val)
+            if why:
+                stats["unsound:" + name] += 1
+                kf = [f for f in kpred if f["signature"].get("predicate") == name and
+                      PRED_CONDITIONS.get(f["signature"].get("condition"), lambda a: True)(args)]
+                if kf:
+                    if not any(k[0] is kf[0] for k in chk.known_hit):
+                        chk.known(kf[0], "%s: bounds test %s allows an out-of-range access (%s), e.g. `%s`" %
+                                  (kf[0]["id"], name, kf[0]["signature"].get("condition"), c.split(" ", 2)[2]))
+                elif stats["unsound_reported"] < 5:
+                    stats["unsound_reported"] += 1
+                    chk.violation("unsound_%s_%d.json" % (name, stats["unsound_reported"]),
+                                  {"kind": "bounds-predicate-unsound", "engine": "bounds", "harness": "h_bounds", "case": c, "implementation": a[0] if a else None,
+                                   "model_spec": val, "why": why, "note": "predicate (as regenerated from the current C text) accepts an access outside the buffer"})
+                    found = True
 
     # ---------------------------------------------------------------- 3. runtime campaign
     sds = seeds(tier)
     fcases, meta = gen_fuzz_cases(r, tier, sds)
     flavour_bin = ba["h_fuzzmod"]
     rules = os.path.join(core.VERIF, "corpus", "C06", "rules.yar")
-    # F10 reproducer on the real code (plain build: no UBSan in front of the wrap): ELF64 symtab offset = 2^64 - address - 16
+    # wrap-around regression input (plain build: no UBSan in front of the wrap): ELF64 symtab offset = 2^64 - address - 16
     f10 = None
     elfp = os.path.join(core.REPO, "tests/data/elf_with_imports")
     if os.path.exists(elfp):
@@ -406,11 +441,11 @@ def run(tier, replay=None):
             found = True
         byid = {c.split(" ", 1)[0]: c for c in fcases}
         # re-run every crash/timeout once alone with a generous timeout: scans are deterministic, load-induced time-outs are not
-        bad = [l.split(" ", 1)[0] for l in out if " ok " not in l[:14] and not f52_shape(l)]
+        bad = [l.split(" ", 1)[0] for l in out if " ok " not in l[:14]]
         if bad and len(bad) <= 40 and not replay:
             rout, rrc, rerr = core.run_lines([flavour_bin, rules, "120"], [byid[c] for c in bad if c in byid], timeout=3000)
             redo = {l.split(" ", 1)[0]: l for l in rout}
-            out = [redo.get(l.split(" ", 1)[0], l) if (" ok " not in l[:14] and not f52_shape(l)) else l for l in out]
+            out = [redo.get(l.split(" ", 1)[0], l) if " ok " not in l[:14] else l for l in out]
             stats["not_reproduced_when_rerun_alone"] = sum(1 for c in bad if " ok " in redo.get(c, "")[:14])
         for l in out:
             cid = l.split(" ", 1)[0]
@@ -424,26 +459,23 @@ def run(tier, replay=None):
             else:
                 sigs[signature(l)].append((byid.get(cid), l[:6000]))
         if f10:
+            # regression case of the fixed finding F10 (6105253): must scan normally; a crash is a VIOLATION with this replay
             xo, xrc, xerr = core.run_lines([bp["h_fuzzmod"], rules, "30"], f10)
             ctl_ok = len(xo) == 2 and " ok " in xo[0]
-            if ctl_ok and "CRASH" in xo[1]:
-                kf = [f for f in krun if f["signature"].get("function") == "is_valid_ptr"]
-                if kf:
-                    chk.known(kf[0], "%s reproduced on the real code: ELF64 with symtab sh_offset = 2^64 - buffer address - 16 passes is_valid_ptr and the scan dies "
-                                     "(%s) in the -O2 build; buffer mapped at 0x500000000000" % (kf[0]["id"], xo[1].split(" msg=")[0].split(" ", 1)[1]))
-                else:
-                    chk.violation("f10_wrap.json", {"kind": "crash-on-crafted-elf", "engine": "fuzzmod", "harness": "h_fuzzmod", "flavour": "plain", "case": f10[1],
-                                                    "implementation": xo[1][:500], "model_spec": "scan terminates normally",
-                                                    "note": "is_valid_ptr wrap-around (Lean witness is_valid_ptr_v452_unsound_witness) reproduced on the real code"})
-                    found = True
-            stats["f10_reproducer"] = "crash" if ctl_ok and "CRASH" in xo[1] else ("no-crash" if ctl_ok else "not-run")
+            if ctl_ok and " ok " not in xo[1][:8]:
+                chk.violation("elf_wrap.json", {"kind": "crash-on-crafted-elf", "engine": "fuzzmod", "harness": "h_fuzzmod", "flavour": "plain", "case": f10[1],
+                                                "implementation": xo[1][:500], "model_spec": "scan terminates normally",
+                                                "note": "ELF64 whose symtab sh_offset = 2^64 - buffer address - 16 (buffer mapped at 0x500000000000): a bounds test "
+                                                        "that adds to the file-derived pointer wraps around (Lean: Thm/C06.is_valid_ptr_sound must hold for the current text)"})
+                found = True
+            stats["elf_wrap_regression"] = "crash" if ctl_ok and " ok " not in xo[1][:8] else ("ok" if ctl_ok else "not-run")
         n = 0
         for (kind, fn), lst in sorted(sigs.items()):
             stats["report:%s@%s" % (kind, fn)] = len(lst)
-            kn = [(c, l, runtime_known(krun, kind, fn, l)) for c, l in lst]
+            kn = [(c, l, runtime_known(krun, kind, fn)) for c, l in lst]
             hit = [x for x in kn if x[2]]
             if hit:
-                chk.known(hit[0][2], "%s %s (function %s) on %d input(s) of the listed shape, e.g. `%s` -> %s" %
+                chk.known(hit[0][2], "%s %s (function %s) on %d input(s), e.g. `%s` -> %s" %
                           (hit[0][2]["id"], kind, fn, len(hit), hit[0][0], hit[0][1].split(" msg=")[0].split(" ", 1)[1]))
             if True:
                 for case, l in [(c, l) for c, l, k in kn if not k][:2]:
@@ -471,7 +503,7 @@ def run(tier, replay=None):
         "function_level": {k: v for k, v in sorted(stats.items()) if k.startswith(("pred", "rva", "unsound"))},
         "runtime": {"cases": len(fcases) if do_fuzz else 0, "seeds": len(sds), "by_format": dict(fmt_hist), "by_mutation": dict(hist),
                     "scan_results": {k: v for k, v in stats.items() if k.startswith("scan_rc")},
-                    "reports": {k: v for k, v in stats.items() if k.startswith("report:")}, "f10_reproducer": stats.get("f10_reproducer")},
+                    "reports": {k: v for k, v in stats.items() if k.startswith("report:")}, "elf_wrap_regression": stats.get("elf_wrap_regression")},
         "traces_validated_against_impl": sum(v for k, v in stats.items() if k.startswith("pred:") or k == "rva"),
     })
     chk.assumptions += ["allocation validity: base + size < 2^64 (and + 8 for the Mach-O command header test)",
